@@ -245,6 +245,6 @@ MANIFEST = {
     "text": "Deductive: the rank-window post-condition of C05 is discharged by z3 on the real _sort_and_select / sort filter methods / _check_range / "
             "get_realization_weights and the row mapping of _calculate_filtered_realization_weights, for all real sort values (ties included), weights, "
             "every failure mask and window; complete per enumerated ensemble size (n <= 3 quick, <= 6 thorough) and per filter-index map over <= 2 objectives, 2 constraints, 2 filters.",
-    "note": "np.argsort by contract (a sorting permutation, NaN last); floats as reals; bounded in shape only; pydantic option parsing in __init__ not under contract (only _check_range)",
+    "note": "plus the filter inside the real EnsembleEvaluator (real constructors, failures in one column only, unused filter first, repeated calls, prior instances); np.argsort by contract (a sorting permutation, NaN last); floats as reals; bounded in shape only; pydantic option parsing in __init__ not under contract (only _check_range)",
     "technique": "contract-based deductive verification: symbolic execution of the real source under sidecar contracts, VCs discharged by z3/cvc5; bounded run-time contract checking as stand-in",
 }
